@@ -96,6 +96,35 @@ def main():
                     steps.append({"kept": len(held[o["slot"]]), "scheme": None if sch is None else sch.annotation_spec()})
                 except Exception as e:  # noqa
                     steps.append({"exc": exc_name(e)})
+            elif k == "hold_header":
+                # a header OBJECT made now (Silent) and looked at (scheme(), validate()) - possibly before its scheme exists
+                from maflib.header import MafHeader
+                from maflib.validation import ValidationStringency as VS
+                try:
+                    h = MafHeader.from_lines(o["lines"], validation_stringency=VS.Silent)
+                    sch = h.scheme()
+                    h.validate(validation_stringency=VS.Silent)
+                    held["hdr", o["slot"]] = h
+                    steps.append({"held": True, "scheme": None if sch is None else sch.annotation_spec()})
+                except Exception as e:  # noqa
+                    steps.append({"exc": exc_name(e)})
+            elif k == "use_held_header":
+                # the header object kept earlier, used NOW, next to a header parsed now from the same lines
+                from verif import impl
+                from maflib.header import MafHeader
+                from maflib.validation import ValidationStringency as VS
+                try:
+                    def view(h):
+                        sch = h.scheme()
+                        errs = impl.errs_json(h.validate(validation_stringency=VS.Silent))
+                        buf = impl.RecordingHandle()
+                        from maflib.writer import MafWriter
+                        w = MafWriter.from_fd(buf, h, validation_stringency=VS.Silent)
+                        w.close()
+                        return {"scheme": None if sch is None else sch.annotation_spec(), "errors": errs, "written": buf.text()}
+                    steps.append({"held": view(held["hdr", o["slot"]]), "fresh": view(MafHeader.from_lines(o["lines"], validation_stringency=VS.Silent))})
+                except Exception as e:  # noqa
+                    steps.append({"exc": exc_name(e)})
             elif k == "write_kept":
                 # a Strict writer opened NOW for the same header is offered the records kept earlier
                 from verif import impl
